@@ -101,11 +101,81 @@ def specSegs : List Req → St → List (List IEv) → Bool
 def specC01 (reqs : List Req) (tr : ITrace) : Bool :=
   !reqs.all Req.inScope || specSegs reqs .STANDBY (segments tr [])
 
-/-- The same for request lists with overlapping pairs (judged in the order in which the requests got
-    the mutex). No hypothesis is excluded any more: since the repair "ControlEnvironment does not force
-    ERROR on an environment that is DONE" the graph clause is proved for every list
-    (`C01_graph_par_code`), so a DONE → ERROR report is a plain violation. -/
+/-! ### overlapping pairs: one at a time
+
+  For a pair `(P a b)` the harness parks `a` INSIDE its critical section (it holds the transition mutex),
+  issues `b` from a second caller and records — while `a` is still in there — what `b` was seen doing and
+  the state the environment reported before `b` was issued and after (`IEv.overlap how st0 st1`). "One at a
+  time" on that observation:
+
+  * the reported state does not move while `a` is in progress (`st1 = st0`): whatever moved it was carried
+    out concurrently with `a`, on the state `a` started from and not on the one it leaves. In the model no
+    move of a caller that has not yet been inside the mutex is enabled while another caller holds it
+    (`C01_nothing_happens_while_held`), and the only state write outside a critical section — the glue's
+    forced ERROR — is made by a caller that has been through two critical sections of its own before
+    (`C01_forced_write_needs_own_sections`): it cannot come from a request that has just arrived;
+  * a request that RETURNED while `a` was in progress was not carried out: none of its own hooks or body
+    ran and it reports the state it found; `a` is then judged on the state before the pair;
+  * otherwise (`b` queued) the two are judged one after the other, `b` on the state `a` left.
+-/
+
+def overlapOf (seg : List IEv) : Option (String × String × String) :=
+  seg.findSome? fun
+    | .overlap how a b => some (how, a, b)
+    | _ => none
+
+/-- the part of a segment recorded after the overlap record -/
+def afterOverlap (seg : List IEv) : List IEv := (seg.dropWhile (fun e => !e.isOverlap)).drop 1
+
+/-- the part of a segment recorded before the overlap record -/
+def beforeOverlap (seg : List IEv) : List IEv := seg.takeWhile (fun e => !e.isOverlap)
+
+/-- a request that was not carried out: nothing of its own ran and the state it reports is the one it found -/
+def ReqObs.inert (o : ReqObs) : Bool := !o.ranOwnHooksOrBody && o.after == o.before
+
+def specPSegs : List PReq → St → List (List IEv) → Bool
+  | [], _, [] => true
+  | .one q :: qs, s, seg :: segs =>
+    (match obsOf q s seg with
+     | none => false
+     | some o => reqOk o && specPSegs qs o.after segs)
+  | .par a b :: qs, s, seg1 :: seg2 :: segs =>
+    (match overlapOf seg1 with
+     | some (how, st0, st1) =>
+       -- nothing is carried out while `a` is inside its critical section
+       st1 == st0 &&
+       (if how == "returned" then
+          -- `b` returned while `a` was in progress: seg1 ends with b's record, a's is the next
+          match obsOf b s (afterOverlap seg1), obsOf a s (beforeOverlap seg1 ++ seg2) with
+          | some ob, some oa => ob.inert && reqOk ob && reqOk oa && specPSegs qs oa.after segs
+          | _, _ => false
+        else
+          match obsOf a s seg1 with
+          | none => false
+          | some oa =>
+            reqOk oa &&
+            (match obsOf b oa.after seg2 with
+             | none => false
+             | some ob => reqOk ob && specPSegs qs ob.after segs))
+     | none =>
+       -- `a` returned before it got as far as a gate point: the two ran one after the other
+       match obsOf a s seg1 with
+       | none => false
+       | some oa =>
+         reqOk oa &&
+         (match obsOf b oa.after seg2 with
+          | none => false
+          | some ob => reqOk ob && specPSegs qs ob.after segs))
+  | _, _, _ => false
+
+def PReq.allInScope : PReq → Bool
+  | .one q => q.inScope
+  | .par a b => a.inScope && b.inScope
+
+/-- Spec.C01 for request lists with overlapping pairs. No hypothesis is excluded: since the repair
+    "ControlEnvironment does not force ERROR on an environment that is DONE" the graph clause is proved
+    for every list (`C01_graph_par_code`), so a DONE → ERROR report is a plain violation. -/
 def specC01P (preqs : List PReq) (tr : ITrace) : Bool × String :=
-  (specC01 ((preqs.map PReq.flat).flatten) tr, "-")
+  (!preqs.all PReq.allInScope || specPSegs preqs .STANDBY (segments tr []), "-")
 
 end EnvM
